@@ -34,6 +34,14 @@ theorem sec_write (ef e : Nat) (d c : Int) (h : IsSeconds ef) (h0 : 0 < d) (hc :
   repeat' split
   all_goals omega
 
+/-- The stored value saturates at 0xffff (a 65535-second hold journalled in the second of its grant has 65536 s left). -/
+theorem sec_write_sat (ef e : Nat) (d c : Int) (h : IsSeconds ef) (h0 : 0 < d) (hov : 65536 ≤ d - c) :
+    writeRemaining ef e (some d) c = 65535 := by
+  obtain ⟨hU, hMs, hMin⟩ := h
+  simp only [writeRemaining, hU, hMs, hMin, Option.getD_some, u16, ne_eq, not_true_eq_false, if_false]
+  repeat' split
+  all_goals omega
+
 theorem sec_skip (ef rem : Nat) (c n : Int) (h : IsSeconds ef) (hc : 0 ≤ c) (hb : c + rem < 2 ^ 62) :
     skippedAt ef rem c.toNat n = decide (0 < rem ∧ c + rem ≤ n) := by
   obtain ⟨hU, hMs, hMin⟩ := h
@@ -57,6 +65,14 @@ theorem min_deadline (ef e : Nat) (s : Int) (h : IsMinutes ef) : engineDeadline 
 /-- stored minutes = ⌈(d − c)/60⌉ (no uint16 overflow: at most 65535). -/
 theorem min_write (ef e : Nat) (d c : Int) (h : IsMinutes ef) (hc : c < d) (hov : d - c ≤ 60 * 65535) :
     (writeRemaining ef e (some d) c : Int) = (d - c + 59) / 60 := by
+  obtain ⟨hU, hMs, hMin⟩ := h
+  simp only [writeRemaining, hU, hMs, Option.getD_some, u16, ne_eq, not_true_eq_false, if_false]
+  repeat' split
+  all_goals omega
+
+/-- Saturation: more than 65535 minutes left (65535-minute hold journalled in the second of its grant) is stored as 65535. -/
+theorem min_write_sat (ef e : Nat) (d c : Int) (h : IsMinutes ef) (hlo : 60 * 65535 < d - c) (hhi : d - c < 60 * 65536) :
+    writeRemaining ef e (some d) c = 65535 := by
   obtain ⟨hU, hMs, hMin⟩ := h
   simp only [writeRemaining, hU, hMs, Option.getD_some, u16, ne_eq, not_true_eq_false, if_false]
   repeat' split
